@@ -219,6 +219,12 @@ def tie_quats(eps):
         w = math.sqrt(max(0.0, 1 - 3 * c * c))
         out.append(([c, c, c, w], "equal-components"))
         out.append(([c, -c, c, -w], "equal-components"))
+    # class 36 — NEAR ties, between round-off and 1e-5: a hidden isclose/allclose (rtol 1e-5, atol 1e-8) deciding the branch would
+    # treat them as ties. Quarter turns ± δ and half turns ± δ, both hemispheres
+    for i, dl in enumerate([1e-5, 1e-6, 1e-7, 1e-9, 1e-12]):
+        for th in (math.pi / 2 - dl, math.pi / 2 + dl, 3 * math.pi / 2 - dl, 3 * math.pi / 2 + dl, math.pi - 3 * dl, math.pi + 3 * dl):
+            a = axes[(i + 3) % len(axes)]
+            out.append(([a[0] * math.sin(th / 2), a[1] * math.sin(th / 2), a[2] * math.sin(th / 2), math.cos(th / 2)], f"near-tie{dl:g}"))
     for th in (0.02, 0.03, 0.05, 0.07, 0.1, 0.2):
         for sgn in (1.0, -1.0):
             a = axes[3]
@@ -1531,6 +1537,214 @@ def mode_order_probe(ctx: Ctx):
                                          f"{shape} returns {got[k].tolist()} for an item whose value is {alone[k].tolist()} ({dtype}) — state shared between grad modes")
 
 
+# ----------------------------------------------------------------------------- round 5: huge batches (34), other ops (32), dtypes (30)
+
+def run_huge(ctx: Ctx):
+    """class 34 — sizes beyond the largest block: 2^18+37 (quick) / 2^18+1, 2^18+37, 2^20+1 (thorough) items for the entry points
+    Log / Exp / Inv of every type (one call each, single-threaded: ≈ 0.2 s per 2^18 items). Checked: the LAST n % 2^k items for
+    k = 5…18 (re-evaluated alone), the items around every 2^k boundary and 64 random items (re-evaluated as a small batch); in
+    thorough also split-consistency at 2^18."""
+    P = U.pp()
+    rng = ctx.rng
+    nthreads = torch.get_num_threads()
+    torch.set_num_threads(1)
+    try:
+        sizes = [2 ** 18 + 37, 2 ** 18 + 1] if ctx.quick else [2 ** 18 + 1, 2 ** 18 + 37, 2 ** 19 + 5, 2 ** 20 + 1]
+        for dtype in ("float64", "float32"):
+            eps = common.EPS[dtype]
+            D = U.dt(dtype)
+            anchors = anchor_quats(eps)
+            for name in U.GROUPS:
+                for kind, label, fn, okind in (("group", "Log", lambda o: o.Log(), "alg"), ("group", "Inv", lambda o: o.Inv(), "grp"),
+                                               ("alg", "Exp", lambda o: o.Exp(), "grp")):
+                    if dtype == "float32" and ctx.quick and label == "Inv":
+                        continue
+                    grp = kind == "group"
+                    width = U.GDIM[name] if grp else U.ADIM[name]
+                    ow = (U.ADIM if okind == "alg" else U.GDIM)[name]
+                    lt_ = getattr(P, (name if grp else U.ALG[name]) + "_type")
+                    base = [(gen_group_item(rng, name, eps, anchors, kk)[0] if grp else gen_alg_item(rng, name, eps)[0]) for kk in range(101)]
+                    B = torch.tensor(base, dtype=torch.float64).to(D)
+                    for n in sizes:
+                        flat = B.repeat((n + 100) // 101, 1)[:n].clone()
+                        flat[-1] = B[(n * 7) % 101]
+                        case = {"kind": kind, "type": name, "dtype": dtype, "shape": [n], "id": f"huge-{n}", "n": n, "tags": []}
+                        ctx.count(f"huge.{n}.{label}")
+                        ctx.note_case(("huge", n, label, name, dtype), True)
+                        try:
+                            full = fn(P.LieTensor(flat.clone(), ltype=lt_)).tensor()
+                            if tuple(full.shape) != (n, ow) or full.dtype != D:
+                                ctx.fail(case, f"huge {name}: {label} on {n} items returned shape {tuple(full.shape)} dtype {full.dtype} ({dtype})")
+                                continue
+                            fullf = full.double()
+                            idx = set()
+                            for kx in (5, 8, 10, 12, 14, 16, 17, 18, 19, 20):
+                                r = n % (2 ** kx)
+                                if 0 < r <= 4096:
+                                    idx.update(range(n - r, n))
+                                b = 2 ** kx
+                                while b < n:
+                                    idx.update(i for i in (b - 1, b, b + 1) if i < n)
+                                    b += 2 ** kx if kx >= 16 else n      # every multiple for the big blocks, the first for the small
+                            idx.update(rng.randrange(n) for _ in range(64))
+                            idx.update((0, n - 1, n - 2))
+                            idx = sorted(idx)
+                            small_b = fn(P.LieTensor(flat[idx].clone(), ltype=lt_)).tensor().double()
+                            r, k = block_same(name, okind, fullf[idx], small_b, dtype, tin_of(kind, name, flat[idx]))
+                            if not (r <= 1.0) or not bool(torch.isfinite(fullf[idx]).all()):
+                                if bool(torch.isfinite(fullf[idx]).all()) is False:
+                                    k = int((~torch.isfinite(fullf[idx]).all(-1)).nonzero()[0])
+                                ctx.fail(small({**case, ("X" if grp else "x"): flat[idx].double().tolist(), "shape": [len(idx)]}, k, batch_items=n,
+                                               position=idx[k], which=label),
+                                         f"huge {name}: {label} of item {idx[k]} inside a batch of {n} items (n mod 2^18 = {n % 2 ** 18}) is "
+                                         f"{fullf[idx][k].tolist()} but {small_b[k].tolist()} when the same item is evaluated in a batch of {len(idx)} ({dtype})")
+                                continue
+                            if not ctx.quick and n > 2 ** 18:
+                                head = fn(P.LieTensor(flat[:2 ** 18].clone(), ltype=lt_)).tensor().double()
+                                r, k = block_same(name, okind, fullf[:2 ** 18], head, dtype, tin_of(kind, name, flat[:2 ** 18]))
+                                if not r <= 1.0:
+                                    ctx.fail(small({**case, ("X" if grp else "x"): [flat[k].double().tolist()], "shape": [1]}, 0, batch_items=n, position=k),
+                                             f"huge {name}: {label} of item {k} differs between the batch of {n} and its first 2^18 items ({dtype})")
+                        except Exception as ex:
+                            ctx.fail(case, f"huge {name}: {label} on {n} items raised {type(ex).__name__}: {str(ex)[:120]} ({dtype})")
+    finally:
+        torch.set_num_threads(nthreads)
+
+
+def other_ops_probe(ctx: Ctx, spec):
+    """class 32 — module-level constants written in place by ANOTHER operation: between two identical evaluations of the fixed
+    corpus (Log, Inv, Exp, Log∘Exp of every type and dtype, plus the degenerate shapes: one item without batch dimension, an
+    all-1 batch) every other public operation of the module runs — matrix, rotation, translation, scale, Act (3- and 4-vectors),
+    @, Adj, AdjT, Jinvp, Retr, Jr, identity constructors — forward and backward, on single items and on batches, and the results
+    they return are overwritten in place. The two evaluations must be bit-identical."""
+    P = U.pp()
+    rng = ctx.rng
+
+    def corpus():
+        out = []
+        for dtype in ("float64", "float32"):
+            D = U.dt(dtype)
+            for name in U.GROUPS:
+                g = torch.tensor(spec[dtype][name]["X"], dtype=torch.float64).to(D)
+                a = torch.tensor(spec[dtype][name]["x"], dtype=torch.float64).to(D)
+                for G, A in ((g, a), (g[7], a[3]), (g[9:10].reshape(1, 1, -1), a[5:6].reshape(1, 1, -1))):
+                    X = P.LieTensor(G.clone(), ltype=U.ltype(name))
+                    x = P.LieTensor(A.clone(), ltype=getattr(P, U.ALG[name] + "_type"))
+                    out += [raw(X.Log()), raw(X.Inv()), raw(x.Exp()), raw(x.Exp().Log()), raw(X.Log().Exp())]
+        return out
+    try:
+        before = corpus()
+    except Exception as ex:
+        ctx.fail({"kind": "other-ops"}, f"raises: corpus evaluation raised {type(ex).__name__}: {str(ex)[:120]}")
+        return
+    ran = 0
+    for dtype in ("float64", "float32"):
+        D = U.dt(dtype)
+        eps = common.EPS[dtype]
+        for name in U.GROUPS:
+            alg_t = getattr(P, U.ALG[name] + "_type")
+            for shape in ((), (1,), (1, 1), (3,)):
+                n = int(math.prod(shape))
+                G = torch.tensor([U.gen_group(rng, name, eps, thi=3.0, shi=1.0)[0] for _ in range(n)], dtype=torch.float64).to(D).reshape(shape + (U.GDIM[name],))
+                A = torch.tensor([U.gen_algebra(rng, name, eps, big=False, thi=3.0, shi=1.0)[0] for _ in range(n)], dtype=torch.float64).to(D).reshape(shape + (U.ADIM[name],))
+                p3 = torch.tensor([1.0, -2.0, 0.5], dtype=D)
+                p4 = torch.tensor([1.0, -2.0, 0.5, 1.0], dtype=D)
+                calls = [
+                    lambda X, x: X.matrix(), lambda X, x: X.rotation().tensor(), lambda X, x: X.translation(), lambda X, x: X.scale(),
+                    lambda X, x: X.Act(p3), lambda X, x: X.Act(p4), lambda X, x: (X @ X).tensor(), lambda X, x: (X * X).tensor(),
+                    lambda X, x: X.Adj(x).tensor(), lambda X, x: X.AdjT(x).tensor(), lambda X, x: X.Jinvp(x).tensor(), lambda X, x: X.Retr(x).tensor(),
+                    lambda X, x: (X + x.tensor()).tensor(), lambda X, x: x.matrix(), lambda X, x: x.Jr(), lambda X, x: (x * 2.0).tensor(),
+                    lambda X, x: P.identity_like(X).tensor(), lambda X, x: getattr(P, "identity_" + name)(*shape, dtype=D).tensor(),
+                    lambda X, x: getattr(P, "identity_" + U.ALG[name])(*shape, dtype=D).tensor(), lambda X, x: x.Inv().tensor(),
+                ]
+                for call in calls:
+                    for grad in (False, True):
+                        try:
+                            Xt = G.clone().requires_grad_(grad)
+                            xt = A.clone().requires_grad_(grad)
+                            X = P.LieTensor(Xt, ltype=U.ltype(name))
+                            x = P.LieTensor(xt, ltype=alg_t)
+                            r = call(X, x)
+                            if grad and r.requires_grad:
+                                r.sum().backward()
+                            with torch.no_grad():           # the caller overwrites what it was given
+                                rr = r.detach() if isinstance(r, torch.Tensor) else None
+                                if rr is not None and rr.numel():
+                                    rr.mul_(3.0)
+                                    rr.add_(7.0)
+                            ran += 1
+                        except Exception:
+                            ctx.count("other-ops.call-raised")
+    ctx.count("other-ops.calls", ran)
+    try:
+        after = corpus()
+    except Exception as ex:
+        ctx.fail({"kind": "other-ops"}, f"poison: after {ran} calls of other operations the corpus evaluation raises {type(ex).__name__}: {str(ex)[:120]}")
+        return
+    ctx.note_case(("other-ops",), True)
+    names = ["Log", "Inv", "Exp", "Log(Exp)", "Exp(Log)"]
+    for k, (b, a) in enumerate(zip(before, after)):
+        if not teq(a, b):
+            d = float((a.double() - b.double()).abs().max()) if a.shape == b.shape else float("nan")
+            grp_i, what = divmod(k, 5)
+            dt_i, rest = divmod(grp_i, 12)
+            name_i, var = divmod(rest, 3)
+            ctx.fail({"kind": "other-ops", "index": k, "op": names[what], "type": U.GROUPS[name_i], "dtype": ("float64", "float32")[dt_i],
+                      "variant": ("batch", "single item without batch dimension", "all-1 batch")[var]},
+                     f"poison {U.GROUPS[name_i]}: {names[what]} ({('float64', 'float32')[dt_i]}, {('batch', 'single item', 'all-1 batch')[var]}) changed by {d:.3e} after other "
+                     f"operations of the module (matrix / Act / @ / Adj / Jinvp / Retr / identity …, forward and backward, results overwritten in "
+                     f"place) were called in between — a module-level constant was written in place")
+            break
+
+
+def lowprec_probe(ctx: Ctx):
+    """class 30 — the other floating dtypes torch accepts (float16, bfloat16): the result keeps the dtype and agrees with the float64
+    evaluation of the same (exactly representable) input to 64·eps of the narrow dtype per block. Outside the property's quantifier
+    (float32/float64): an exception is an observation (e.g. linalg.inv has no half kernel: Sim3.Log); a silent dtype change or a
+    wrong value is a failure because it would equally hit a caller who stays inside the documented API with autocast tensors."""
+    P = U.pp()
+    rng = ctx.rng
+    for dname, D in (("float16", torch.float16), ("bfloat16", torch.bfloat16)):
+        eps_n = float(torch.finfo(D).eps)
+        for name in U.GROUPS:
+            rows = [U.gen_group(rng, name, common.EPS["float32"], thi=3.0, shi=1.0)[0] for _ in range(24)]
+            G = torch.tensor(rows, dtype=torch.float64)
+            q = G[:, U.QSL[name]]
+            keep = (q[:, 3].abs() > 0.05) & (q[:, :3].norm(dim=-1) > 0.05)          # stay clear of the thresholds of the narrow dtype
+            G = G[keep][:12].to(D)
+            A = torch.tensor([U.gen_algebra(rng, name, common.EPS["float32"], big=False, thi=3.0, shi=1.0)[0] for _ in range(12)], dtype=torch.float64)
+            A = A[(A[:, U.PHISL[name]].norm(dim=-1) > 0.05) & (A[:, U.PHISL[name]].norm(dim=-1) < 2.8)].to(D)
+            for kind, T, lt_ in (("group", G, U.ltype(name)), ("alg", A, getattr(P, U.ALG[name] + "_type"))):
+                if T.shape[0] == 0:
+                    continue
+                for label, (fn, okind) in ops_of(kind, name).items():
+                    ow = (U.ADIM if okind == "alg" else U.GDIM)[name]
+                    case = {"kind": kind, "type": name, "dtype": dname, "shape": [T.shape[0]], ("X" if kind == "group" else "x"): T.double().tolist(), "tags": []}
+                    ctx.count(f"lowprec.{dname}")
+                    ctx.note_case(("lowprec", dname, label, name, kind), True)
+                    try:
+                        got = fn(P.LieTensor(T.clone(), ltype=lt_)).tensor()
+                    except Exception as ex:
+                        ctx.count(f"lowprec-observation.{dname} {name} {label} raises {type(ex).__name__}")
+                        continue
+                    ref = fn(P.LieTensor(T.double(), ltype=lt_)).tensor()
+                    if got.dtype != D or tuple(got.shape) != tuple(ref.shape):
+                        ctx.fail(case, f"dtype {name}: {label} of a {dname} LieTensor returns dtype {got.dtype} shape {tuple(got.shape)} (expected {D}, {tuple(ref.shape)})")
+                        continue
+                    a, b = got.double().reshape(-1, ow), ref.reshape(-1, ow)
+                    sls = ([U.PHISL[name]] + ([U.TAUSL[name]] if U.TAUSL[name] is not None else []) + ([slice(U.SIGIDX[name], U.SIGIDX[name] + 1)] if U.SIGIDX[name] is not None else [])) \
+                        if okind == "alg" else ([U.QSL[name]] + ([U.TSL[name]] if U.TSL[name] is not None else []) + ([slice(U.SIDX[name], U.SIDX[name] + 1)] if U.SIDX[name] is not None else []))
+                    tin = tin_of(kind, name, T)
+                    worst = 0.0
+                    for sl in sls:
+                        sc = b[:, sl].abs().amax(-1, keepdim=True).clamp(min=1e-3)
+                        if tin is not None and sl == (U.TAUSL[name] if okind == "alg" else U.TSL[name]):
+                            sc = torch.maximum(sc, tin)
+                        worst = max(worst, float(((a[:, sl] - b[:, sl]).abs() / (64 * eps_n * sc)).max()))
+                    if not worst <= 1.0:
+                        ctx.fail(case, f"dtype {name}: {label} in {dname} differs from the float64 evaluation of the same input by {worst:.3g}×64 eps({dname})")
+
+
 TR_ANCHORS = [0.0, 1.0, 1e-3, 37.0, 1e3, 1e-20, 1e6, 1e-30, 1e12]
 
 
@@ -1597,6 +1811,9 @@ def run_algebra_sweep(ctx: Ctx):
                     for sgn in (1.0, -1.0):
                         rows.append(([1.0, -2.0, 0.5] if name == "Sim3" else []) + [0.0, th, 0.0, sgn * th])
                         tags.append("tie|sigma|=theta")
+                        for dl in (1e-6, -1e-9):      # class 36: nearly tied
+                            rows.append(([1.0, -2.0, 0.5] if name == "Sim3" else []) + [0.0, th, 0.0, sgn * th * (1 + dl)])
+                            tags.append("near-tie|sigma|~theta")
             _, x64 = U.to_dtype_exact(rows, dtype)
             case = {"kind": "alg", "type": name, "dtype": dtype, "shape": [len(rows)], "x": x64.tolist(), "tags": tags, "id": f"ladder-{name}-{dtype}"}
             eval_alg_case(ctx, case, pend)
@@ -1622,6 +1839,9 @@ def run(ctx: Ctx):
     run_dispatch(ctx)
     mode_order_probe(ctx)
     run_large_batches(ctx)
+    run_huge(ctx)
+    other_ops_probe(ctx, spec)
+    lowprec_probe(ctx)
     interleave_probe(ctx, spec)
     error_atomic_probe(ctx, spec)
     run_cases(ctx, ctx.pick(250, 9000), ctx.pick(170, 6000))
